@@ -129,7 +129,7 @@ class RestartRun:
 
     def __init__(self, program, crashes=None, media=None, loader_mode='default', build=None, max_rounds=200, pauses=None,
                  crash_paused=None, pause_in_step=None, crash_on_paused=None, crash_on_played=None, lag=None, tags=None,
-                 crash_on_exit=None, lose_at=None):
+                 crash_on_exit=None, lose_at=None, detached=False):
         self.plumpy = seams.install()
         self.program = program
         self.crashes = {int(k): v for k, v in (crashes or {}).items()}
@@ -177,6 +177,11 @@ class RestartRun:
         self.lose_at = [int(b) for b in (lose_at or [])]
         self.handles = []
         self.last_handle = None
+        # the loop a checkpoint is loaded into is named in the load context but is NOT the thread's current event loop (which
+        # is some other loop, as in an application that runs several): whatever the restored process creates belongs to the
+        # loop it was given
+        self.detached = bool(detached)
+        self.other_loop = None
         self.store = {}  # one persister per medium for the whole run: checkpoints under one key overwrite each other
         self.exit_ordinal = 0
         self.played_ordinal = 0
@@ -368,6 +373,14 @@ class RestartRun:
                 self.last_handle = bundle if isinstance(bundle, PersisterHandle) and hasattr(bundle, 'mark') else None
                 loop.hooks = None
                 loop = seams.new_loop(max_ticks=20000)
+                if self.detached:
+                    import asyncio
+
+                    from .loop import SimLoop
+
+                    if self.other_loop is None:
+                        self.other_loop = SimLoop(max_ticks=10)
+                    asyncio.set_event_loop(self.other_loop)
                 try:
                     proc = load(bundle, loop, self._loader())
                 except SimError:
@@ -453,6 +466,8 @@ class RestartRun:
         return True
 
     def close(self):
+        if self.other_loop is not None:
+            self.other_loop.close()
         for handle in self.handles:
             handle.discard()
         if self.crash_on_paused or self.crash_on_played:
